@@ -498,6 +498,22 @@ def r5(repo, chk):
     wh = Fn(repo, CONN + "_write_handshake")
     clr2 = [st for st, t, v in wh.assigns(chain="self._probe_pending") if isinstance(v, ast.Constant) and v.value is False]
     chk.ob("R5", "_write_handshake clears the probe allowance when it sends crypto data or a probe PING", len(clr2) >= 2, "", wh.loc(wh.node))
+    # the per-datagram flight capacity is lowered to what is left of the budget - whatever is left, a negative remainder
+    # (window cut by a loss while packets are still in flight) included
+    sp = Fn(repo, "quic.packet_builder:QuicPacketBuilder.start_packet")
+    clamps = []
+    for st, t, v in sp.assigns(chain="self._flight_capacity"):
+        if sp.expand(v, 3) == "self.max_flight_bytes - self._flight_bytes":
+            lg = set(sp.lexical_guards(st, expand=True))
+            want = {natom("self.max_flight_bytes is not None"), natom("self.max_flight_bytes - self._flight_bytes < self._flight_capacity")}
+            inner = {a for a in lg if "_datagram_init" not in a[0]}
+            clamps.append((st, inner == want, sorted(inner)))
+    ok = len(clamps) == 1 and clamps[0][1]
+    chk.ob("R5", "start_packet lowers the datagram's flight capacity to the remaining flight budget whenever that is smaller (no other condition)", ok, f"clamp conditions {[c[2] for c in clamps]}: with bytes_in_flight above the window the budget is negative; skipping the clamp then grants every datagram its full size", sp.loc(sp.node))
+    ep = Fn(repo, "quic.packet_builder:QuicPacketBuilder._end_packet")
+    pads = [(st, v) for st, t, v in ep.assigns(chain="padding_size") if natom("self._packet_type == QuicPacketType.ONE_RTT") in ep.guard_atoms(st) + ep.lexical_guards(st, expand=False)]
+    ok = len(pads) == 1 and ep.expand(pads[0][1], 2) == "self.remaining_flight_space" and natom("self.remaining_flight_space > padding_size") in ep.lexical_guards(pads[0][0], expand=True)
+    chk.ob("R5", "_end_packet pads a 1-RTT packet inside a padded datagram up to the flight space, not beyond it", ok, f"{[norm(v) for st, v in pads]}: padding counts as bytes in flight; padding to the buffer space sends more than the congestion budget allows", ep.loc(ep.node))
     sf = Fn(repo, "quic.packet_builder:QuicPacketBuilder.start_frame")
     from rules import c01 as _c01
 
